@@ -33,6 +33,10 @@ fn in_flight_cap_at_least_one() {
     }
 }
 
+// (the fallback / formula of in_flight_cap_packets is pinned in Verus against a spec function over uninterpreted float operations:
+// C11.select.enhanced.in_flight_cap_is_the_documented_cap_and_1ms_without_an_rtt_baseline.  A Kani harness comparing two symbolic runs,
+// cap(t, bad rtt) == cap(t, 1.0), did not terminate in 900 s -- f64 multiply/divide circuits -- and is not kept.)
+
 #[kani::proof]
 fn smooth_rtt_never_negative_or_nan() {
     let c = any_conn();
